@@ -371,8 +371,8 @@ def run_schema(sub, task):
         for unknown in unknowns:
             sub.count('schemas')
             for npos, kw in shapes(n):
-                if fam == 'unknown' and (npos > special or special in kw):
-                    continue      # the attribute of unknown type is omitted from the call
+                # (the attribute of unknown type is omitted from the call, given positionally, or given by keyword:
+                #  creation must be rejected in every case)
                 for gen in gens:
                     for route in routes:
                         case = dict(part='create', fam=fam, types=spelled, special=special, unknown=unknown,
@@ -398,12 +398,12 @@ def call_args(case, attrs, inst_no, ref_id):
     for i, (name, _, ty, role) in enumerate(attrs):
         if i < case['npos']:
             # (second instance: a null positional value for the referential attribute, overridden by a keyword if given)
-            v = (ref_id if inst_no == 0 else None) if role == 'ref' else POS[ty][inst_no]
+            v = (ref_id if inst_no == 0 else None) if role == 'ref' else (POS[ty][inst_no] if ty in POS else 'odd-value')
             args.append(v)
             explicit[i] = v
     for i in case['kw']:
         name, _, ty, role = attrs[i]
-        v = ref_id if role == 'ref' else KW[ty][inst_no]
+        v = ref_id if role == 'ref' else (KW[ty][inst_no] if ty in KW else 'odd-value')
         kwargs[name] = v
         explicit[i] = v
     return args, kwargs, explicit
